@@ -248,7 +248,24 @@ impl Property for C08 {
         let npool = 2 + t.draw(3);
         let mut pool: Vec<Vec<V>> = Vec::new();
         for _ in 0..npool {
-            pool.push(g.table.cols.iter().map(|(_, ty)| if *ty == Ty::Real { special_real(t, ctx) } else if t.chance(1, 6) { V::Null } else { crate::props::c04::small_value(t, *ty) }).collect());
+            pool.push(
+                g.table
+                    .cols
+                    .iter()
+                    .map(|(_, ty)| {
+                        if *ty == Ty::Real {
+                            special_real(t, ctx)
+                        } else if t.chance(1, 6) {
+                            V::Null
+                        } else if *ty == Ty::Int && t.chance(1, 5) {
+                            // neighbours that collide under a lossy conversion to REAL
+                            V::Int(*t.pick(&[9007199254740992, 9007199254740993, 9007199254740994, 1700000000000000000, 1700000000000000001, 1700000000000000128, i64::MAX, i64::MAX - 1]))
+                        } else {
+                            crate::props::c04::small_value(t, *ty)
+                        }
+                    })
+                    .collect(),
+            );
         }
         let n = t.draw(21);
         let mut lines = Vec::new();
@@ -262,7 +279,13 @@ impl Property for C08 {
                 1 => {
                     let c = t.draw(row.len());
                     let ty = g.table.cols[c].1;
-                    row[c] = if ty == Ty::Real { special_real(t, ctx) } else { crate::props::c04::small_value(t, ty) };
+                    row[c] = if ty == Ty::Real {
+                        special_real(t, ctx)
+                    } else if ty == Ty::Int && t.chance(1, 4) {
+                        V::Int(*t.pick(&[9007199254740992, 9007199254740993, 1700000000000000000, 1700000000000000001, i64::MAX, i64::MAX - 1]))
+                    } else {
+                        crate::props::c04::small_value(t, ty)
+                    };
                 }
                 _ => {}
             }
